@@ -1,6 +1,7 @@
 import OpusProofs.RangeCoderRoundTrip
 import OpusProofs.RangeCoderStageA2
 import OpusProofs.RangeCoderBudget
+import OpusProofs.RangeCoderPatchRun
 /-
   Property C08 — "Range coder: the decoder inverts the encoder symbol for symbol, within budget".
 
@@ -64,17 +65,13 @@ example : tellFrac (encInit [0, 0] 2) < tellFrac (encOp (encInit [0, 0] 2) (.bit
 /-! ## Stages B and C — the decoder inverts the encoder -/
 
 /-
-  Full statement (the property as written, including `ec_enc_patch_initial_bits`):
-
-    theorem decode_encode (buf size ops) (hs : size ≤ buf.length) (hb : BytesOk buf)
-        (hl : every op legal where applied, `patchInitial v n` allowed when the first operation was
-              `encodeBin fl (fl+1) n`)
-        (herr : (encodeAll buf size ops).error = 0) :
-        decoding the first `storage` bytes with the same calls returns the encoded values, the first
-        value being the last patched one
-
-  Proved below: the same statement for operation lists without `ec_enc_patch_initial_bits`
-  (all other eight operation kinds, any interleaving, `ec_enc_shrink` included).
+  The round-trip clause of the property is stated as two theorems:
+    `decode_encode`          every operation list without `ec_enc_patch_initial_bits`
+    `decode_encode_patched`  patch-style lists (first operation `ec_encode_bin(fl, fl+1, n)`, then any
+                             operations and any number of `ec_enc_patch_initial_bits(v, n)`)
+  A patch in a stream whose first `n` bits were not coded with probability `2^-n` has no defined
+  decoded meaning (entenc.h) and is not part of the round trip; such streams are still covered by
+  `outside_untouched` and by the state-by-state correspondence run.
 -/
 
 /-- "if the encoder reports no error then decoding the buffer with the same sequence of calls returns
@@ -83,9 +80,8 @@ example : tellFrac (encInit [0, 0] 2) < tellFrac (encOp (encInit [0, 0] 2) (.bit
     2^32−1, raw bits, buffer shrinking, in any interleaving — each legal where it is applied, written
     into a buffer of any size with any initial content: if `ec_enc_done` leaves `error = 0` (and
     `nbits_total`, a C `int`, stayed below 2^32), then decoding the first `storage` bytes with the
-    same calls returns exactly the encoded values and the decoder's error flag stays clear.
-    MISSING for the full statement: operation lists containing `ec_enc_patch_initial_bits`. -/
-theorem decode_encode_partial (buf : List Nat) (size : Nat) (ops : List Op) (hs : size ≤ buf.length)
+    same calls returns exactly the encoded values and the decoder's error flag stays clear. -/
+theorem decode_encode (buf : List Nat) (size : Nat) (ops : List Op) (hs : size ≤ buf.length)
     (hb : BytesOk buf) (hl : LegalRun (encInit buf size) ops)
     (hn : (encodeAll buf size ops).nbitsTotal < 4294967296)
     (herr : (encodeAll buf size ops).error = 0) :
@@ -112,7 +108,7 @@ example : exampleOps.length = 40 ∧ LegalRun (encInit (List.replicate 12 170) 1
     (encodeAll (List.replicate 12 170) 12 exampleOps).nbitsTotal < 4294967296 := by decide +kernel
 
 /-- "After every operation encoder and decoder report the same whole and fractional bit usage and the
-    same range": under the hypotheses of `decode_encode_partial`, after every prefix `pre` of the
+    same range": under the hypotheses of `decode_encode`, after every prefix `pre` of the
     operations the decoder (run on the finished buffer) and the encoder (at the time it had coded
     `pre`) have the same `rng` and the same `nbits_total`, hence the same `ec_tell` and `ec_tell_frac`;
     the decoder has returned the values of `pre` and its `val` is `top − code` (invariant D). -/
@@ -125,7 +121,8 @@ theorem lockstep_rng (buf : List Nat) (size : Nat) (pre suf : List Op) (hs : siz
       (encodeAll buf size (pre ++ suf)).storage) (encodeAll buf size (pre ++ suf)).storage) pre).2
     d.rng = e.rng ∧ d.nbitsTotal = e.nbitsTotal ∧ tell d = tell e ∧ tellFrac d = tellFrac e ∧ RngOk d ∧
     DecAll ((encodeAll buf size (pre ++ suf)).buf.take (encodeAll buf size (pre ++ suf)).storage)
-      (encodeAll buf size (pre ++ suf)).storage e d := by
+      (encodeAll buf size (pre ++ suf)).storage e d
+      ((encodeAll buf size (pre ++ suf)).buf.take (encodeAll buf size (pre ++ suf)).storage) := by
   intro e d
   have h := (decode_encode_prefix buf size pre suf hs hb hl hn herr).2
   have hr : RngOk e := by
@@ -150,10 +147,52 @@ example : LegalRun (encInit (List.replicate 12 170) 12) (exampleOps.take 17 ++ e
     (encodeAll (List.replicate 12 170) 12 (exampleOps.take 17 ++ exampleOps.drop 17)).error = 0 := by
   decide +kernel
 
+/-- "initial-bit patching": a patch-style stream — first operation `ec_encode_bin(fl, fl+1, n)` with
+    `1 ≤ n ≤ 8`, then any legal operations interleaved with any number of
+    `ec_enc_patch_initial_bits(v, n)` — written into a non-empty buffer: if `ec_enc_done` leaves
+    `error = 0`, the decoder's first `ec_decode_bin(n)` returns the LAST patched value `w`
+    (`lastPatch`; `fl` if nothing was patched), and after `ec_dec_update(w, w+1, 2^n)` every other
+    operation decodes to exactly the encoded value; the error flag stays clear and the decoder ends
+    in lock-step with the encoder (same `rng`, same `nbits_total`). -/
+theorem decode_encode_patched (buf : List Nat) (size n fl : Nat) (rest : List Op) (hs : size ≤ buf.length)
+    (hb : BytesOk buf) (hn1 : 1 ≤ n) (hn8 : n ≤ 8) (hfl : fl < 2 ^ n)
+    (hl : LegalRunP n (encOp (encInit buf size) (.encodeBin fl (fl + 1) n)) rest)
+    (hnb : (encodeAll buf size (.encodeBin fl (fl + 1) n :: rest)).nbitsTotal < 4294967296)
+    (hS : 0 < (encodeAll buf size (.encodeBin fl (fl + 1) n :: rest)).storage)
+    (herr : (encodeAll buf size (.encodeBin fl (fl + 1) n :: rest)).error = 0) :
+    let e := encodeAll buf size (.encodeBin fl (fl + 1) n :: rest)
+    let w := lastPatch fl rest
+    let r := decRun (decInit (e.buf.take e.storage) e.storage) (.encodeBin w (w + 1) n :: rest)
+    MatchAll (.encodeBin w (w + 1) n :: rest) r.1 ∧ r.1.head? = some w ∧ r.2.error = 0 ∧
+    r.2.rng = (encRun (encInit buf size) (.encodeBin fl (fl + 1) n :: rest)).rng ∧
+    r.2.nbitsTotal = (encRun (encInit buf size) (.encodeBin fl (fl + 1) n :: rest)).nbitsTotal := by
+  intro e w r
+  have h := decode_encode_patched_all buf size n fl rest hs hb hn1 hn8 hfl hl hnb hS herr
+  refine ⟨h.1, ?_, h.2.err, h.2.rc.rng_eq, h.2.rc.nbits_eq⟩
+  have hm := h.1
+  show (decRun _ (.encodeBin w (w + 1) n :: rest)).1.head? = some w
+  simp only [decRun] at hm ⊢
+  simp only [List.head?_cons]
+  have := hm.1
+  simp only [Op.Matches] at this
+  congr 1
+  exact Nat.le_antisymm (Nat.lt_succ_iff.mp this.2) this.1
+
+/-- A patch-style stream: one flag bit coded as `0`, other symbols, then the flag is patched to `1`
+    (and once more to `0` and back). -/
+def examplePatched : List Op :=
+  [.bitLogp 1 3, .uint 77 1000, .bits 9 4, .patchInitial 1 2, .icdf 1 [3, 1, 0] 2, .patchInitial 0 2,
+   .encode 2 3 5, .patchInitial 3 2, .bits 1 1]
+
+example : LegalRunP 2 (encOp (encInit (List.replicate 6 255) 6) (.encodeBin 2 3 2)) examplePatched ∧
+    (encodeAll (List.replicate 6 255) 6 (.encodeBin 2 3 2 :: examplePatched)).error = 0 ∧
+    0 < (encodeAll (List.replicate 6 255) 6 (.encodeBin 2 3 2 :: examplePatched)).storage ∧
+    lastPatch 2 examplePatched = 3 := by decide +kernel
+
 /-! ## Stage D — budget and memory -/
 
 /-- "If the bit usage reported at the end does not exceed 8 x buffer size, finishing the stream cannot
-    fail": for every legal operation list (as in `decode_encode_partial`) and every buffer (up to
+    fail": for every legal operation list (as in `decode_encode`) and every buffer (up to
     5·10^8 bytes, so that `nbits_total` cannot overflow), if `ec_tell` before `ec_enc_done` is at most
     `8 * storage` (the storage left by the last `ec_enc_shrink`), then no write of the whole run failed
     and `ec_enc_done` leaves `error = 0`. -/
